@@ -2,7 +2,7 @@ import PyramidModel.Prelude
 import PyramidModel.ConfigFootprints
 import PyramidModel.Gen.C08Phases
 /-! Driver for C08: one JSON case per line.
-in : {"actions":[{"id":n,"kind":"addView","disc":null|n,"args":[["viewSlot",k],…],"vorder":null|n},…],
+in : {"actions":[{"id":n,"kind":"addView","disc":null|n,"args":[["viewSlot",k],…],"vorder":null|n,"pkg":n},…],
       "variants":[{"order":[ids in declaration order],"paths":[[n,…] include path per position]},…],
       "pre":{"order":[…],"paths":[…]}   (optional: the actions of an EARLIER commit, executed first, same for all variants)}
 out: {"table_ok":bool,
@@ -27,6 +27,8 @@ structure AIn where
   args : List Slot
   /-- predicate `order` of a view registration (`view_intr['order']`, data from the real `PredicateList.make`) -/
   vorder : Option Nat
+  /-- package of the issuing configurator (0 = the application's own); part of the statement's meaning -/
+  pkg : Nat
 
 def parseSlot (j : Json) : Except String Slot := do
   match j with
@@ -49,7 +51,8 @@ def parseAction (j : Json) : Except String AIn := do
     | .arr xs => xs.toList.mapM parseSlot
     | _ => throw "bad args"
   let vorder : Option Nat := (j.getObjValAs? (Option Nat) "vorder").toOption.getD none
-  pure ⟨id, Kind.ofName kind, disc, args, vorder⟩
+  let pkg : Nat := (j.getObjValAs? Nat "pkg").toOption.getD 0
+  pure ⟨id, Kind.ofName kind, disc, args, vorder, pkg⟩
 
 def rowOfKind (k : Kind) : Option Row := Gen.rows.find? (fun r => r.kind == k)
 
@@ -131,6 +134,7 @@ def main : IO Unit := jsonDriver fun j => do
     ("phases", toJson (as.map phaseOfA)),
     ("footprints", Json.arr (as.map fun a => Json.mkObj [
         ("id", toJson a.id),
+        ("pkg", toJson a.pkg),
         ("reads", Json.arr ((env a.id).reads.map slotJson).toArray),
         ("writes", Json.arr ((env a.id).writes.map slotJson).toArray),
         ("disc_reads", toJson ((kfoot a.kind).discReads.map (·.name))),
